@@ -525,6 +525,10 @@ func (e *Exec) mutex(m *Mutex) *mutexState {
 }
 
 func (m *Mutex) Lock() {
+	if cur == nil {
+		outMutex(m).Lock()
+		return
+	}
 	e := cur
 	if e.aborted.Load() {
 		return
@@ -537,6 +541,10 @@ func (m *Mutex) Lock() {
 }
 
 func (m *Mutex) Unlock() {
+	if cur == nil {
+		outMutex(m).Unlock()
+		return
+	}
 	e := cur
 	if e.aborted.Load() {
 		return
@@ -553,6 +561,9 @@ func (m *Mutex) Unlock() {
 }
 
 func (m *Mutex) TryLock() bool {
+	if cur == nil {
+		return outMutex(m).TryLock()
+	}
 	e := cur
 	if e.aborted.Load() {
 		return false
@@ -597,6 +608,10 @@ func (e *Exec) rwOf(m *RWMutex) *rwState {
 }
 
 func (m *RWMutex) Lock() {
+	if cur == nil {
+		outMutex(m).Lock()
+		return
+	}
 	e := cur
 	if e.aborted.Load() {
 		return
@@ -609,6 +624,10 @@ func (m *RWMutex) Lock() {
 }
 
 func (m *RWMutex) Unlock() {
+	if cur == nil {
+		outMutex(m).Unlock()
+		return
+	}
 	e := cur
 	if e.aborted.Load() {
 		return
@@ -625,6 +644,10 @@ func (m *RWMutex) Unlock() {
 }
 
 func (m *RWMutex) RLock() {
+	if cur == nil {
+		outMutex(m).RLock()
+		return
+	}
 	e := cur
 	if e.aborted.Load() {
 		return
@@ -637,6 +660,10 @@ func (m *RWMutex) RLock() {
 }
 
 func (m *RWMutex) RUnlock() {
+	if cur == nil {
+		outMutex(m).RUnlock()
+		return
+	}
 	e := cur
 	if e.aborted.Load() {
 		return
@@ -653,6 +680,9 @@ func (m *RWMutex) RUnlock() {
 }
 
 func (m *RWMutex) TryLock() bool {
+	if cur == nil {
+		return outMutex(m).TryLock()
+	}
 	e := cur
 	if e.aborted.Load() {
 		return false
@@ -670,6 +700,9 @@ func (m *RWMutex) TryLock() bool {
 }
 
 func (m *RWMutex) TryRLock() bool {
+	if cur == nil {
+		return outMutex(m).TryRLock()
+	}
 	e := cur
 	if e.aborted.Load() {
 		return false
@@ -708,6 +741,10 @@ func (e *Exec) wgOf(w *WaitGroup) *wgState {
 }
 
 func (w *WaitGroup) Add(n int) {
+	if cur == nil {
+		outWG(w).Add(n)
+		return
+	}
 	e := cur
 	if e.aborted.Load() {
 		return
@@ -720,6 +757,10 @@ func (w *WaitGroup) Add(n int) {
 }
 func (w *WaitGroup) Done() { w.Add(-1) }
 func (w *WaitGroup) Wait() {
+	if cur == nil {
+		outWG(w).Wait()
+		return
+	}
 	e := cur
 	if e.aborted.Load() {
 		return
